@@ -13,9 +13,9 @@ Lemma dstep_nodead s o b :
   dstep (mkD s [] []) o = (mkD (fst (rstep s b)) [] [], lift (snd (rstep s b))).
 Proof.
   intros H. destruct o as [b0|c m|p]; cbn [base_of] in H; inversion H; subst.
-  - unfold dstep. cbn [d_gone existsb]. destruct (conn_of_dop (DBase b)); unfold dstep0; cbn [d_dead d_s d_gone];
+  - unfold dstep, dstep_gen. cbn [d_gone existsb]. destruct (conn_of_dop (DBase b)); unfold dstep0; cbn [d_dead d_s d_gone];
       destruct (rstep s b) as [s' r]; reflexivity.
-  - unfold dstep. cbn [conn_of_dop d_gone existsb]. unfold dstep0. cbn [d_dead d_s d_gone].
+  - unfold dstep, dstep_gen. cbn [conn_of_dop d_gone existsb]. unfold dstep0. cbn [d_dead d_s d_gone].
     destruct (rstep s (REst c)) as [s' r]; reflexivity.
 Qed.
 
@@ -56,8 +56,8 @@ Qed.
 
 Lemma est_dead_observation d c mask :
   d_dead d <> [] -> busy (d_s d) c = false -> existsb (N.eqb c) (d_gone d) = false ->
-  let d' := fst (dstep d (DEst c mask)) in
-  do_code (snd (dstep d (DEst c mask))) = 3 /\
+  let d' := fst (dstep_before_fix d (DEst c mask)) in
+  do_code (snd (dstep_before_fix d (DEst c mask))) = 3 /\
   d_dead d' = d_dead d /\ d_gone d' = c :: d_gone d /\
   (* the report has returned: nothing of connection c is left waiting *)
   (forall p ch', nth_error (r_ch (d_s d')) p = Some ch' ->
@@ -68,7 +68,7 @@ Lemma est_dead_observation d c mask :
          N.testbit mask (N.of_nat p) = true /\ is_dead d (N.of_nat p) = false /\
          rw ch = [] /\ (length (rq ch) < r_cap (d_s d))%nat))).
 Proof.
-  intros ND NB NG. unfold dstep. cbn [conn_of_dop]. rewrite NG. unfold dstep0.
+  intros ND NB NG. unfold dstep_before_fix, dstep_gen. cbn [conn_of_dop]. rewrite NG. unfold dstep0.
   destruct (d_dead d) as [|x xs] eqn:DD; [congruence|].
   rewrite NB. cbn [fst snd do_code d_dead d_s d_gone r_ch]. split; [reflexivity|]. split; [reflexivity|].
   split; [reflexivity|].
@@ -86,8 +86,8 @@ Qed.
 
 (* no input of this layer ever produces a "closed" event for that connection except an explicit
    report_connection_closed — which Transport::accept never issues after the failure *)
-Lemma only_closed_reports_closed0 d o c p ch ch' :
-  nth_error (r_ch (d_s d)) p = Some ch -> nth_error (r_ch (d_s (fst (dstep0 d o)))) p = Some ch' ->
+Lemma only_closed_reports_closed0 fixed d o c p ch ch' :
+  nth_error (r_ch (d_s d)) p = Some ch -> nth_error (r_ch (d_s (fst (dstep0 fixed d o)))) p = Some ch' ->
   (forall b, o <> DBase (RClosed b)) ->
   ~ In (IClosed c) (racc ch) -> ~ In (IClosed c) (racc ch').
 Proof.
@@ -128,11 +128,14 @@ Proof.
     + assert (NB : forall x, REst c0 <> RClosed x) by (intros x E; discriminate).
       pose proof (BASE (d_s d) (REst c0) ch ch' NB H) as BB.
       destruct (rstep (d_s d) (REst c0)) as [s' r]. cbn [fst d_s] in *. auto.
-    + destruct (busy (d_s d) c0); [cbn [fst] in H'; congruence|].
-      cbn [fst d_s r_ch] in H'. rewrite nth_error_mapi in H'. cbn [plus] in H'. rewrite H in H'. cbn [option_map] in H'.
-      inversion H' as [E]. destruct (N.testbit m (N.of_nat p) && negb (is_dead d (N.of_nat p))); [|exact NI].
-      unfold try_now. destruct (rw ch); [|exact NI]. destruct (Nat.ltb (length (rq ch)) (r_cap (d_s d))); [|exact NI].
-      cbn [racc]. intros C. apply in_app_or in C. destruct C as [C|[C|[]]]; [contradiction | discriminate].
+    + destruct (busy (d_s d) c0); [cbn [fst] in H'; congruence|]. destruct fixed.
+      * cbn [fst d_s r_ch] in H'. rewrite nth_error_mapi in H'. cbn [plus] in H'. rewrite H in H'. cbn [option_map] in H'.
+        inversion H' as [E]. destruct (is_dead d (N.of_nat p)); [exact NI|].
+        apply SEND; [discriminate | exact NI].
+      * cbn [fst d_s r_ch] in H'. rewrite nth_error_mapi in H'. cbn [plus] in H'. rewrite H in H'. cbn [option_map] in H'.
+        inversion H' as [E]. destruct (N.testbit m (N.of_nat p) && negb (is_dead d (N.of_nat p))); [|exact NI].
+        unfold try_now. destruct (rw ch); [|exact NI]. destruct (Nat.ltb (length (rq ch)) (r_cap (d_s d))); [|exact NI].
+        cbn [racc]. intros C. apply in_app_or in C. destruct C as [C|[C|[]]]; [contradiction | discriminate].
   - assert (KILL : forall D' G', nth_error (r_ch (d_s (mkD (mkR (r_cap (d_s d))
                (upd (N.to_nat q) (fun ch0 => mkRc [] [] (racc ch0) (rdel ch0)) (r_ch (d_s d)))) D' G'))) p = Some ch' ->
                ~ In (IClosed c) (racc ch')).
@@ -147,15 +150,94 @@ Proof.
         [cbn [fst] in H'; congruence | cbn [fst] in H'; eapply KILL; eauto].
 Qed.
 
+Lemma only_closed_reports_closed_gen fixed d o c p ch ch' :
+  nth_error (r_ch (d_s d)) p = Some ch -> nth_error (r_ch (d_s (fst (dstep_gen fixed d o)))) p = Some ch' ->
+  (forall b, o <> DBase (RClosed b)) ->
+  ~ In (IClosed c) (racc ch) -> ~ In (IClosed c) (racc ch').
+Proof.
+  intros H H' NC NI. unfold dstep_gen in H'.
+  destruct (conn_of_dop o) as [cc|].
+  - destruct (existsb (N.eqb cc) (d_gone d)).
+    + cbn [fst] in H'. congruence.
+    + exact (only_closed_reports_closed0 fixed d o c p ch ch' H H' NC NI).
+  - exact (only_closed_reports_closed0 fixed d o c p ch ch' H H' NC NI).
+Qed.
 Lemma only_closed_reports_closed d o c p ch ch' :
   nth_error (r_ch (d_s d)) p = Some ch -> nth_error (r_ch (d_s (fst (dstep d o)))) p = Some ch' ->
   (forall b, o <> DBase (RClosed b)) ->
   ~ In (IClosed c) (racc ch) -> ~ In (IClosed c) (racc ch').
+Proof. exact (only_closed_reports_closed_gen true d o c p ch ch'). Qed.
+
+(* ---- the repaired report_connection_established (fix 2c7c81a) ---- *)
+Lemma gone_stays_nil d o : d_gone d = [] -> d_gone (fst (dstep d o)) = [].
 Proof.
-  intros H H' NC NI. unfold dstep in H'.
-  destruct (conn_of_dop o) as [cc|].
-  - destruct (existsb (N.eqb cc) (d_gone d)).
-    + cbn [fst] in H'. congruence.
-    + exact (only_closed_reports_closed0 d o c p ch ch' H H' NC NI).
-  - exact (only_closed_reports_closed0 d o c p ch ch' H H' NC NI).
+  intros G. unfold dstep, dstep_gen. rewrite G. cbn [existsb].
+  assert (E : (match conn_of_dop o with Some _ => dstep0 true d o | None => dstep0 true d o end) = dstep0 true d o)
+    by (destruct (conn_of_dop o); reflexivity).
+  rewrite E. unfold dstep0. destruct (d_dead d) as [|x xs].
+  - destruct o as [b|c m|q].
+    + destruct (rstep (d_s d) b). exact G.
+    + destruct (rstep (d_s d) (REst c)). exact G.
+    + destruct (_ || _); exact G.
+  - destruct o as [b|c m|q].
+    + destruct b as [c1 p0 d0|c1 p0 id|c1|c1|p0 k].
+      * destruct (busy (d_s d) c1); [exact G|]. destruct (is_dead d p0); [exact G|].
+        destruct (rstep (d_s d) (RSubOpen c1 p0 d0)). exact G.
+      * destruct (busy (d_s d) c1); [exact G|]. destruct (is_dead d p0); [exact G|].
+        destruct (rstep (d_s d) (RSubFail c1 p0 id)). exact G.
+      * exact G.
+      * destruct (busy (d_s d) c1); exact G.
+      * destruct (is_dead d p0); [exact G|]. destruct (rstep (d_s d) (RDrain p0 k)). exact G.
+    + destruct (busy (d_s d) c); exact G.
+    + destruct (_ || _); exact G.
+Qed.
+
+(* every live protocol is handed "established" exactly once, dead ones are skipped, and the
+   report does not fail: it is complete (0) or waits for room on a live protocol's channel (1) *)
+Lemma est_skips_dead d c mask :
+  busy (d_s d) c = false -> d_gone d = [] ->
+  let d' := fst (dstep d (DEst c mask)) in
+  let out := snd (dstep d (DEst c mask)) in
+  do_code out = (if busy (d_s d') c then 1 else 0) /\
+  d_dead d' = d_dead d /\
+  forall p ch', nth_error (r_ch (d_s d')) p = Some ch' ->
+    exists ch, nth_error (r_ch (d_s d)) p = Some ch /\
+               ch' = if is_dead d (N.of_nat p) then ch else send_one (r_cap (d_s d)) c (IEst c) ch.
+Proof.
+  intros NB G. unfold dstep, dstep_gen. cbn [conn_of_dop]. rewrite G. cbn [existsb]. unfold dstep0.
+  destruct (d_dead d) as [|x xs] eqn:DD.
+  - cbn [rstep]. rewrite NB. cbn [fst snd lift o_code do_code d_s d_dead r_ch].
+    split; [reflexivity|]. split; [reflexivity|].
+    intros p ch' H. rewrite nth_error_map in H. destruct (nth_error (r_ch (d_s d)) p) as [ch|]; [|discriminate].
+    cbn [option_map] in H. inversion H; subst. exists ch. split; [reflexivity|].
+    unfold is_dead. rewrite DD. reflexivity.
+  - rewrite NB. cbn [fst snd do_code d_s d_dead r_ch]. split; [reflexivity|]. split; [reflexivity|].
+    intros p ch' H. rewrite nth_error_mapi in H. cbn [plus] in H.
+    destruct (nth_error (r_ch (d_s d)) p) as [ch|]; [|discriminate]. cbn [option_map] in H.
+    inversion H; subst. exists ch. split; reflexivity.
+Qed.
+
+(* "closed" reaches exactly the live protocols; it is refused only for a connection with a
+   report in progress *)
+Lemma closed_reaches_live d c :
+  busy (d_s d) c = false -> d_gone d = [] ->
+  let d' := fst (dstep d (DBase (RClosed c))) in
+  do_code (snd (dstep d (DBase (RClosed c)))) <> 2 /\
+  d_dead d' = d_dead d /\
+  forall p ch', nth_error (r_ch (d_s d')) p = Some ch' ->
+    exists ch, nth_error (r_ch (d_s d)) p = Some ch /\
+               ch' = if is_dead d (N.of_nat p) then ch else send_one (r_cap (d_s d)) c (IClosed c) ch.
+Proof.
+  intros NB G. unfold dstep, dstep_gen. cbn [conn_of_dop]. rewrite G. cbn [existsb]. unfold dstep0.
+  destruct (d_dead d) as [|x xs] eqn:DD.
+  - cbn [rstep]. rewrite NB. cbn [fst snd lift o_code do_code d_s d_dead r_ch].
+    split; [match goal with |- (if ?b then _ else _) <> _ => destruct b end; intros E; discriminate E|]. split; [reflexivity|].
+    intros p ch' H. rewrite nth_error_map in H. destruct (nth_error (r_ch (d_s d)) p) as [ch|]; [|discriminate].
+    cbn [option_map] in H. inversion H; subst. exists ch. split; [reflexivity|].
+    unfold is_dead. rewrite DD. reflexivity.
+  - rewrite NB. cbn [fst snd do_code d_s d_dead r_ch].
+    split; [match goal with |- (if ?b then _ else _) <> _ => destruct b end; intros E; discriminate E|]. split; [reflexivity|].
+    intros p ch' H. rewrite nth_error_mapi in H. cbn [plus] in H.
+    destruct (nth_error (r_ch (d_s d)) p) as [ch|]; [|discriminate]. cbn [option_map] in H.
+    inversion H; subst. exists ch. split; reflexivity.
 Qed.
